@@ -80,6 +80,11 @@ func genDeadlines(seed uint64, tier, variant string) any {
 				c.S = "ctx-already-done"
 				c.TimeoutMs = 1000
 			}
+			if len(c.Cmds) == 1 && c.Cmds[0].Argv[0] == "BLPOP" && c.TimeoutMs == 0 && !c.Cancel {
+				// only the server-side timeout ends this call: keep it short, minutes of simulated keep-alives
+				// would use up the step budget
+				c.Cmds[0].Argv[2] = pick(r, "1", "2", "5")
+			}
 			calls = append(calls, c)
 		}
 		p.Tasks = append(p.Tasks, calls)
